@@ -631,6 +631,13 @@ func (p *prover) lenOf(x ssa.Value) linExpr {
 		return p.lenOf(r)
 	}
 	switch t := x.(type) {
+	case *ssa.UnOp:
+		// a package-level table that only its initialiser ever assigns has a constant length
+		if g, ok := t.X.(*ssa.Global); ok && t.Op == token.MUL {
+			if n, ok := constLenGlobal(g); ok {
+				return newLin(n)
+			}
+		}
 	case *ssa.Const:
 		if s, ok := constString(t); ok {
 			return newLin(int64(len(s)))
@@ -941,6 +948,14 @@ func (p *prover) interval(v ssa.Value, d int) (lo, hi *int64) {
 			}
 			if all && l != nil {
 				return l, h
+			}
+			// an index into a constant-length table: every return of the callee is provably below the table's
+			// length (by the callee's own guards), or a negative constant
+			if d < 4 {
+				if n, ok := calleeTableBound(f); ok {
+					lo := int64(-1)
+					return &lo, &n
+				}
 			}
 			// range summary: the interval of every value the function can return, computed inside the callee
 			// from types and constants alone (e.g. a big-endian decoder returning int(b[0])<<8 | int(b[1]))
@@ -1460,4 +1475,81 @@ func distinctBytePositions(p *prover, x, y ssa.Value) bool {
 		return false
 	}
 	return p.atomFor(sx) == p.atomFor(sy)
+}
+
+var constLenMemo = map[*ssa.Global]int64{}
+
+// constLenGlobal: the length of a module-level slice (or array) variable that no function other than the package
+// initialiser assigns, whose initialiser the abstract evaluator can compute.
+func constLenGlobal(g *ssa.Global) (int64, bool) {
+	if n, ok := constLenMemo[g]; ok {
+		return n, n >= 0
+	}
+	constLenMemo[g] = -1
+	if g.Pkg == nil || !isModPkg(g.Pkg.Pkg.Path()) || theProgram == nil {
+		return 0, false
+	}
+	elem := g.Type().(*types.Pointer).Elem()
+	if at, ok := elem.Underlying().(*types.Array); ok {
+		constLenMemo[g] = at.Len()
+		return at.Len(), true
+	}
+	if _, ok := elem.Underlying().(*types.Slice); !ok {
+		return 0, false
+	}
+	if assignedOutsideInit(g) {
+		return 0, false
+	}
+	v, und := evalGlobal(theProgram, strings.TrimPrefix(strings.TrimPrefix(g.Pkg.Pkg.Path(), modPath), "/"), g.Name())
+	if sl, ok := v.(avals); ok && und == "" {
+		constLenMemo[g] = int64(len(sl.cells))
+		return int64(len(sl.cells)), true
+	}
+	return 0, false
+}
+
+var tableBoundMemo = map[*ssa.Function]int64{}
+
+// calleeTableBound: f returns either a negative constant or a value its own guards bound by len(G)-1 for one
+// constant-length table G (a lookup function such as "index of kind in the table, or -1").
+func calleeTableBound(f *ssa.Function) (int64, bool) {
+	if n, ok := tableBoundMemo[f]; ok {
+		return n, n >= 0
+	}
+	tableBoundMemo[f] = -1
+	var cands []int64
+	allInstrs(f, func(in ssa.Instruction) {
+		if u, ok := in.(*ssa.UnOp); ok {
+			if g, ok := u.X.(*ssa.Global); ok {
+				if n, ok := constLenGlobal(g); ok {
+					cands = append(cands, n-1)
+				}
+			}
+		}
+	})
+	for _, c := range cands {
+		okAll, any := true, false
+		for _, rt := range realReturns(f) {
+			res := retResults(rt)
+			if len(res) != 1 {
+				okAll = false
+				break
+			}
+			for _, v := range valuesAt(f, res[0], rt) {
+				if k, isC := constInt(v); isC && k < 0 {
+					continue
+				}
+				any = true
+				pr := proveAt(f, rt)
+				if !pr.prove(newLin(c).add(pr.lin(v), -1)) {
+					okAll = false
+				}
+			}
+		}
+		if okAll && any {
+			tableBoundMemo[f] = c
+			return c, true
+		}
+	}
+	return 0, false
 }
